@@ -105,6 +105,10 @@ func plans(c *core.Ctx, m Modes) []Plan {
 		with(agg(1, 2, 1, false), "sigbytes"),
 	}
 	p.Once = []int{6, 7, 8, 9, 10}
+	if !th { // quick: without agg k=1, the second legacy message and the undecodable aggregate signature
+		p.Kinds = []Ev{p.Kinds[0], p.Kinds[1], p.Kinds[4], p.Kinds[5], p.Kinds[6], p.Kinds[7], p.Kinds[8]}
+		p.Once = []int{4, 5, 6, 7}
+	}
 	p.MaxOnce, p.Pos = 1, []int{0}
 	p.MaxBlocks, p.MaxEvents, p.Replay = pick(3, 4), 3, pick(300, 3000)
 	ps = append(ps, p)
@@ -146,7 +150,7 @@ func plans(c *core.Ctx, m Modes) []Plan {
 		}
 		p.Kinds = []Ev{leg(1, 0, true), {C: "ok", Ver: 1, V: 4, N: 0, Reg: true, K: bigK}}
 		p.Once, p.MaxOnce, p.Pos, p.MaxPerBlock = []int{2}, 1, []int{0}, 2
-		p.MaxBlocks, p.MaxEvents, p.Replay = 3, 2, pick(3, 8)
+		p.MaxBlocks, p.MaxEvents, p.Replay = 3, 2, pick(2, 8)
 		ps = append(ps, p)
 	}
 	return ps
@@ -157,6 +161,7 @@ type VResult struct {
 	Lines int     `json:"lines"`
 	Viol  [][]any `json:"viol"`
 	Drift []int   `json:"drift"`
+	Acts  [][]any `json:"acts"` // [line, defect]: calls whose outcome ONE repaired alternative would have changed
 }
 
 func validate(p Plan, trace []byte) (*VResult, error) {
@@ -181,7 +186,9 @@ type Finding struct {
 	Plan    Plan
 	Pos     int
 	Line    J
+	Class   string // the defect the failure is attributed to (see classify)
 	run     *Run
+	ci, n   int // chunk and line number inside the chunk
 }
 
 // ReplayFile is what a VIOLATION line points to.
@@ -297,22 +304,8 @@ func runPlan(c *core.Ctx, p Plan, tlcWorkers, replayWorkers int) (*outcome, erro
 	if os.Getenv("VERIF_VALREG_GENONLY") != "" {
 		todo = todo[:1]
 	}
-	for _, k := range core.LoadKnown().For(c.Prop) { // witnesses of known findings of this plan are replayed on every run
-		if st, _ := k.Match["stage"].(string); st != "valreg" || k.Plan != p.Name || len(k.Witness) == 0 {
-			continue
-		}
-		var h []Action
-		for _, raw := range k.Witness {
-			var a Action
-			if err := json.Unmarshal(raw, &a); err != nil {
-				return nil, fmt.Errorf("known finding %s: witness not decodable: %v", k.ID, err)
-			}
-			if a.Evs == nil {
-				a.Evs = []Ev{}
-			}
-			h = append(h, a)
-		}
-		todo = append([]Behaviour{{H: h}}, todo...)
+	if p.Name == "fork" { // the witness of observation VALREG-4 is replayed on every run
+		todo = append([]Behaviour{{H: forkWitness()}}, todo...)
 	}
 	for i, b := range todo {
 		out.runs = append(out.runs, &Run{Plan: p, C: g.C, Beh: b.H, Seed: c.Seed*1000003 + int64(i+1), No: i + 1})
@@ -395,7 +388,7 @@ func runPlan(c *core.Ctx, p Plan, tlcWorkers, replayWorkers int) (*outcome, erro
 	for _, r := range out.runs {
 		byRun[r.No] = r
 	}
-	for _, ch := range chunks {
+	for ci, ch := range chunks {
 		if ch.err != nil {
 			return nil, ch.err
 		}
@@ -413,7 +406,7 @@ func runPlan(c *core.Ctx, p Plan, tlcWorkers, replayWorkers int) (*outcome, erro
 				continue
 			}
 			l := ch.lines[int(n)-1]
-			out.findings = append(out.findings, Finding{Monitor: m, Plan: p, Pos: l.Pos, Line: l.J, run: byRun[l.Run]})
+			out.findings = append(out.findings, Finding{Monitor: m, Plan: p, Pos: l.Pos, Line: l.J, run: byRun[l.Run], ci: ci, n: int(n)})
 		}
 		for _, n := range ch.vr.Drift {
 			out.driftN++
@@ -422,7 +415,111 @@ func runPlan(c *core.Ctx, p Plan, tlcWorkers, replayWorkers int) (*outcome, erro
 			}
 		}
 	}
+	// attribution of the monitor failures to defects: the trace layer reports the calls whose
+	// outcome exactly ONE repaired alternative ("batch", "nonceq") or the two together ("both") would
+	// have changed, i.e. the steps where that defect acts; a failure is attributed to the defects
+	// that acted earlier in the same run
+	driftOf := map[string]map[int][]int{"batch": {}, "nonceq": {}, "both": {}}
+	for ci, ch := range chunks {
+		for _, v := range ch.vr.Acts {
+			if len(v) != 2 {
+				continue
+			}
+			n, _ := v[0].(float64)
+			d, _ := v[1].(string)
+			if driftOf[d] != nil {
+				driftOf[d][ci] = append(driftOf[d][ci], int(n))
+			}
+		}
+	}
+	for i := range out.findings {
+		f := &out.findings[i]
+		acted := func(alt string) bool {
+			for _, m := range driftOf[alt][f.ci] {
+				if m >= 1 && m <= f.n && chunks[f.ci].lines[m-1].Run == chunks[f.ci].lines[f.n-1].Run {
+					return true
+				}
+			}
+			return false
+		}
+		var acts []string
+		for _, alt := range []string{"batch", "nonceq"} {
+			if acted(alt) {
+				acts = append(acts, alt)
+			}
+		}
+		if len(acts) == 0 && acted("both") { // only the two nonce repairs together change the step
+			acts = []string{"batch", "nonceq"}
+		}
+		f.Class = classify(f, acts)
+	}
 	return out, nil
+}
+
+var defectName = map[string]string{"nil": "VALREG-1(nil-beacon-answer)", "batch": "VALREG-2(nonce-in-range)", "nonceq": "VALREG-3(nonce-query)",
+	"reorg": "VALREG-4(no-reorg-handling)", "count": "VALREG-5(unbounded-count)"}
+
+// forkedBefore: did the canonical chain change other than by extension up to action pos?
+func forkedBefore(beh []Action, pos int) bool {
+	canon, n := 1, 1
+	for i, a := range beh {
+		if i > pos {
+			break
+		}
+		switch a.Op {
+		case "mine":
+			if a.Par != canon {
+				return true
+			}
+			n++
+			canon = n
+		case "switch":
+			return true
+		}
+	}
+	return false
+}
+
+// classify names the defect(s) behind a monitor failure on an observed line: V2 failures by the
+// error class of the call (panic = nil beacon answer, hang = unbounded count), the others by the
+// defects that acted earlier in the same run (acts, from the single-repair validations) and, in
+// fork plans, by a fork before the line.
+func classify(f *Finding, acts []string) string {
+	ret, _ := f.Line["ret"].(string)
+	if strings.HasPrefix(f.Monitor, "V2_") {
+		switch ret {
+		case "panic":
+			return defectName["nil"]
+		case "hang":
+			return defectName["count"]
+		}
+		return "unattributed"
+	}
+	var cs []string
+	for _, a := range acts {
+		cs = append(cs, defectName[a])
+	}
+	if f.run != nil && forkedBefore(f.run.Beh, f.Pos) {
+		cs = append(cs, defectName["reorg"])
+	}
+	if len(cs) == 0 {
+		return "unattributed"
+	}
+	return strings.Join(cs, "+")
+}
+
+// forkWitness: a registration in a block that is abandoned afterwards stays in the table of the
+// keyper that had synced it; a keyper that syncs after the switch never sees it.
+func forkWitness() []Action {
+	none := []Ev{}
+	return []Action{
+		{Op: "mine", Par: 1, F: "none", Evs: []Ev{leg(1, 0, true)}},
+		{Op: "sync", K: 1, Tgt: 1, F: "none", Evs: none},
+		{Op: "mine", Par: 1, F: "none", Evs: none},
+		{Op: "mine", Par: 3, F: "none", Evs: none},
+		{Op: "sync", K: 1, Tgt: 2, F: "none", Evs: none},
+		{Op: "sync", K: 2, Tgt: 2, F: "none", Evs: none},
+	}
 }
 
 func brief(j J) string {
@@ -491,37 +588,6 @@ func behText(b []Action, upto int) string {
 	return strings.Join(p, " ")
 }
 
-// matchKnown: a finding is explained by a known finding of stage valreg whose monitors contain
-// the monitor and whose plans (if given) contain the plan.
-func matchKnown(known []core.Finding, f Finding, hit map[string]int) bool {
-	for _, k := range known {
-		if st, _ := k.Match["stage"].(string); st != "valreg" {
-			continue
-		}
-		okM, okP := false, true
-		if ms, _ := k.Match["monitors"].([]any); len(ms) > 0 {
-			for _, m := range ms {
-				if s, _ := m.(string); s == f.Monitor {
-					okM = true
-				}
-			}
-		}
-		if pl, _ := k.Match["plans"].([]any); len(pl) > 0 {
-			okP = false
-			for _, m := range pl {
-				if s, _ := m.(string); s == f.Plan.Name {
-					okP = true
-				}
-			}
-		}
-		if okM && okP {
-			hit[k.ID]++
-			return true
-		}
-	}
-	return false
-}
-
 // Check runs the stage (a growth stage of ./check C19).
 func Check(c *core.Ctx) int {
 	// maybeTriggerDecryption prints the slot number with fmt.Println
@@ -536,11 +602,9 @@ func Check(c *core.Ctx) int {
 	}
 	pre := make(chan string, 1)
 	go func() { pre <- Preflight() }() // runs beside the plans; its verdict is looked at first
-	knownAll := core.LoadKnown()
-	known := knownAll.For(c.Prop)
-	modes := modesFromEnv(known)
-	if modes != Repaired {
-		say("NOTE: stage valreg runs with the code-shaped alternatives %+v (repaired = %+v)\n", modes, Repaired)
+	modes := modesFromEnv()
+	if modes != AsFound {
+		say("NOTE: stage valreg runs with the code-shaped alternatives %+v (default = the tree as found %+v)\n", modes, AsFound)
 	}
 	ps := plans(c, modes)
 	if only := os.Getenv("VERIF_VALREG_ONLY"); only != "" { // development aid: comma separated plan names
@@ -605,62 +669,66 @@ func Check(c *core.Ctx) int {
 			return core.ExitInconclusive
 		}
 	}
-	violations := 0
-	hit := map[string]int{}
-	shown := map[string]bool{} // one VIOLATION line per monitor (the first plan that shows it), at most 8 lines
-	summary := map[string]int{}
+	// V1-V4 are properties of the EXTENDED behaviour, not monitors of C19 itself: their failures on
+	// observed steps are OBSERVATIONS (exit 0), grouped per plan and defect class. The stage
+	// evaluates no monitor of C19 proper, so it never raises VIOLATION property=C19.
+	type obsGroup struct {
+		Plan     string         `json:"plan"`
+		Class    string         `json:"class"`
+		Count    int            `json:"steps"`
+		Runs     int            `json:"behaviours"`
+		Monitors map[string]int `json:"monitors"`
+		First    string         `json:"first"`
+		Replay   string         `json:"replay"`
+		runs     map[int]bool
+	}
+	var groups []*obsGroup
 	for i, p := range ps {
 		o := outs[i]
 		if o.driftN > 0 {
 			dl := o.drift[0]
 			say("DRIFT stage=valreg plan=%s: %d lines are not what the code-shaped spec %+v yields; first: run=%d pos=%d line=%s\n", p.Name, o.driftN, p.M, dl.Run, dl.Pos, brief(dl.J))
 		}
+		by := map[string]*obsGroup{}
 		for _, f := range o.findings {
-			if matchKnown(known, f, hit) {
-				continue
-			}
-			violations++
-			summary[p.Name+"/"+f.Monitor]++
-			if !shown[f.Monitor] && len(shown) < 8 {
-				shown[f.Monitor] = true
+			g := by[f.Class]
+			if g == nil {
 				r := f.run
-				path := c.WriteReplay(fmt.Sprintf("valreg-%s-%s", p.Name, f.Monitor), ReplayFile{Prop: c.Prop, Stage: "valreg", Seed: r.Seed, Run: r.No, Plan: p, C: r.C,
+				g = &obsGroup{Plan: p.Name, Class: f.Class, Monitors: map[string]int{}, runs: map[int]bool{}, First: behText(r.Beh, f.Pos)}
+				g.Replay = c.WriteReplay(fmt.Sprintf("valreg-%s-%d", p.Name, len(by)+1), ReplayFile{Prop: c.Prop, Stage: "valreg", Seed: r.Seed, Run: r.No, Plan: p, C: r.C,
 					Beh: r.Beh, Monitor: f.Monitor, Pos: f.Pos, Line: f.Line})
-				os.Stdout = realStdout
-				c.Violation(path, fmt.Sprintf("stage valreg: monitor %s failed in plan %s at step %d of: %s\n  line: %s", f.Monitor, p.Name, f.Pos, behText(r.Beh, f.Pos), brief(f.Line)))
-				if devnull, err := os.OpenFile(os.DevNull, os.O_WRONLY, 0); err == nil {
-					os.Stdout = devnull
-				}
+				by[f.Class] = g
+				groups = append(groups, g)
 			}
+			g.Count++
+			g.Monitors[f.Monitor]++
+			g.runs[f.run.No] = true
 		}
 	}
-	if violations > 0 {
-		var ks []string
-		for k, n := range summary {
-			ks = append(ks, fmt.Sprintf("%s=%d", k, n))
+	for _, g := range groups {
+		g.Runs = len(g.runs)
+		var ms []string
+		for m, n := range g.Monitors {
+			ms = append(ms, fmt.Sprintf("%s=%d", m, n))
 		}
-		sort.Strings(ks)
-		say("  stage valreg: %d monitor failures on observed steps (plan/monitor=count): %s\n", violations, strings.Join(ks, " "))
+		sort.Strings(ms)
+		say("OBSERVATION valreg: %s: %s on %d observed steps of %d replayed behaviours of plan %s, first after: %s replay=%s\n",
+			g.Class, strings.Join(ms, " "), g.Count, g.Runs, g.Plan, g.First, g.Replay)
 	}
-	for _, k := range known {
-		if st, _ := k.Match["stage"].(string); st == "valreg" && hit[k.ID] > 0 {
-			os.Stdout = realStdout
-			core.PrintKnown(k)
-			say("  reproduced in %d observed steps of this run\n", hit[k.ID])
-		}
+	violations := 0
+	var obsAny []any
+	for _, g := range groups {
+		obsAny = append(obsAny, g)
 	}
-	if err := mergeEvidence(c, modes, ps, outs, violations, hit, say); err != nil {
+	if err := mergeEvidence(c, modes, ps, outs, violations, obsAny, say); err != nil {
 		fmt.Fprintln(os.Stderr, "valreg evidence:", err)
 	}
-	if violations > 0 {
-		return core.ExitViolation
-	}
-	say("OK property=%s stage=valreg tier=%s\n", c.Prop, c.Tier)
+	say("OK property=%s stage=valreg tier=%s (%d observation classes; no monitor of %s itself is evaluated in this stage)\n", c.Prop, c.Tier, len(groups), c.Prop)
 	return core.ExitOK
 }
 
 // mergeEvidence adds coverage.growth_valreg to the evidence file the main C19 check wrote.
-func mergeEvidence(c *core.Ctx, m Modes, ps []Plan, outs []*outcome, violations int, hit map[string]int, say func(string, ...any)) error {
+func mergeEvidence(c *core.Ctx, m Modes, ps []Plan, outs []*outcome, violations int, obs []any, say func(string, ...any)) error {
 	if os.Getenv("VERIF_VALREG_NOEVIDENCE") != "" {
 		return nil
 	}
@@ -691,7 +759,7 @@ func mergeEvidence(c *core.Ctx, m Modes, ps []Plan, outs []*outcome, violations 
 			"stretch": p.Stretch, "faults": p.Faults, "forky": p.Forky, "checkProps": p.CheckProps, "child": p.Child}
 		info = append(info, J{"plan": pi, "tlc_distinct_states": o.gen.Distinct, "tlc_states_generated": o.gen.States, "tlc_wall_s": o.gen.Wall,
 			"behaviours_printed": len(o.gen.Beh), "classes": o.classes, "spec_counterexamples": len(o.gen.Cex), "behaviours_replayed": len(o.runs), "steps": o.steps,
-			"calls_of_repository_code": o.calls, "trace_lines_validated": o.lines, "drift_lines": o.driftN, "monitor_failures": len(o.findings)})
+			"calls_of_repository_code": o.calls, "trace_lines_validated": o.lines, "drift_lines": o.driftN, "observed_V_monitor_failures": len(o.findings)})
 		if len(o.runs) > 0 && len(samples) < 4 {
 			r := o.runs[int(c.Seed%int64(len(o.runs))+int64(len(o.runs)))%len(o.runs)]
 			s := J{"plan": p.Name, "behaviour": behText(r.Beh, -1)}
@@ -703,7 +771,7 @@ func mergeEvidence(c *core.Ctx, m Modes, ps []Plan, outs []*outcome, violations 
 	}
 	evd.Coverage["growth_valreg"] = J{
 		"module": "specs/ValidatorRegistry.tla, ValidatorRegistryProps.tla, ValidatorRegistryMC.tla, ValidatorRegistryTrace.tla",
-		"tier":   c.Tier, "seed": c.Seed, "wall_s": time.Since(c.Start).Seconds(), "violations": violations, "known_findings_reproduced": hit,
+		"tier":   c.Tier, "seed": c.Seed, "wall_s": time.Since(c.Start).Seconds(), "violations": violations, "observations": obs,
 		"code_shaped_alternatives": m,
 		"states":                   states, "transitions": trans, "traces_validated_against_impl": runs,
 		"evaluations": calls, "distinct_nontrivial": runs, "trace_lines_validated": lines, "drift_lines": drift, "steps": steps,
@@ -760,9 +828,8 @@ func replay(c *core.Ctx, say func(string, ...any)) int {
 	}
 	for _, v := range vr.Viol {
 		if len(v) == 2 && v[1] == rf.Monitor {
-			os.Stdout = os.NewFile(1, "/dev/stdout")
-			c.Violation(c.Replay, "reproduced "+rf.Monitor)
-			return core.ExitViolation
+			say("OBSERVATION valreg: reproduced %s (a property of the validator registry path, not a verdict of %s) replay=%s\n", rf.Monitor, c.Prop, c.Replay)
+			return core.ExitOK
 		}
 	}
 	say("not reproduced\n")
